@@ -88,7 +88,7 @@ Hypothesis Hbody : forall l i (w : W), inv l ->
   match getf fs (fname "gnssId" i) with
   | None => exists l', body (seti l (PInt (Z.of_nat i))) w = CRaise KeyError l' w
   | Some (VInt g) => if g =? sys then body (seti l (PInt (Z.of_nat i))) w = CReturn (PTuple [PInt (Z.of_nat i); fobj fs]) w
-                     else exists l', body (seti l (PInt (Z.of_nat i))) w = CNormal l' w /\ inv l'
+                     else exists l', (body (seti l (PInt (Z.of_nat i))) w = CNormal l' w \/ body (seti l (PInt (Z.of_nat i))) w = CContinue l' w) /\ inv l'
   | Some (VStr _) => True
   end.
 Lemma loop_find k : forall i l (w : W), inv l ->
@@ -103,7 +103,7 @@ Proof.
     destruct (getf fs (fname "gnssId" i)) as [[g|s]|] eqn:Hg.
     + destruct (g =? sys) eqn:Hgs; cbn [bind].
       * right. left. exists i. rewrite Hb, Hgs. split; reflexivity.
-      * destruct Hb as [l' [Hb Hl']]. rewrite Hb, Hgs. exact (IH (S i) l' w Hl').
+      * destruct Hb as [l' [[Hb|Hb] Hl']]; rewrite Hb, Hgs; exact (IH (S i) l' w Hl').
     + destruct (ints_getf fs _ _ Hints Hg) as [z Hz]. discriminate Hz.
     + destruct Hb as [l' Hb]. right. right. exists l', KeyError. rewrite Hb. split; reflexivity.
 Qed.
@@ -141,7 +141,7 @@ Proof.
     match getf fs (fname "gnssId" i) with
     | None => exists l', bd (si l (PInt (Z.of_nat i))) w = CRaise KeyError l' w
     | Some (VInt g) => if g =? sys then bd (si l (PInt (Z.of_nat i))) w = CReturn (PTuple [PInt (Z.of_nat i); fobj fs]) w
-                       else exists l', bd (si l (PInt (Z.of_nat i))) w = CNormal l' w /\ inv l'
+                       else exists l', (bd (si l (PInt (Z.of_nat i))) w = CNormal l' w \/ bd (si l (PInt (Z.of_nat i))) w = CContinue l' w) /\ inv l'
     | Some (VStr _) => True
     end).
   { intros l i w0 [Ha Hb]. destruct l. cbn in Ha, Hb. subst. unfold inv.
@@ -150,7 +150,7 @@ Proof.
       + py_unfold. cbn -[fobj]. rewrite fstr_nat. change ("gnssId_" ++ dec i)%string with (fname "gnssId" i).
         rewrite fld_item_f, Hg. cbn -[fobj]. rewrite Hgs. reflexivity.
       + py_unfold. cbn -[fobj]. rewrite fstr_nat. change ("gnssId_" ++ dec i)%string with (fname "gnssId" i).
-        rewrite fld_item_f, Hg. cbn -[fobj]. rewrite Hgs. eexists. split; [reflexivity|]. split; reflexivity.
+        rewrite fld_item_f, Hg. cbn -[fobj]. rewrite Hgs. eexists. split; [first [left; reflexivity | right; reflexivity]|]. split; reflexivity.
     - py_unfold. cbn -[fobj]. rewrite fstr_nat. change ("gnssId_" ++ dec i)%string with (fname "gnssId" i).
       rewrite fld_item_f, Hg. cbn -[fobj]. eexists. reflexivity. }
   match goal with |- context [s_for_items _ _ _ ?l0 _] =>
